@@ -9,6 +9,22 @@ immutable field SweepingProvider.reprovideInterval
 immutable field SweepingProvider.maxReprovideDelay
 immutable field SweepingProvider.replicationFactor
 
+# ---- prefixes -------------------------------------------------------------
+# a is an ancestor of (or equal to) b in the binary keyspace trie
+pred isAnc(a bitstr.Key, b bitstr.Key) = len(a) <= len(b) && substr(b, 0, len(a)) == a
+# (the string facts about substr are the axioms in provider/internal/keyspace/verif_contracts.go)
+
+# The prefix reported as covered is the requested prefix or one of its
+# ancestors: exploration only ever shortens it. (The region whose keys are
+# reprovided therefore contains the scheduled region.)
+func (s *SweepingProvider) closestPeersToPrefix(prefix bitstr.Key) ([]peer.ID, bitstr.Key, error)
+  props C17
+  modifies *
+  ensures [covered-is-an-ancestor] imp(result2 == nil, isAnc(result1, old(prefix)))
+  loop 0 invariant isAnc(prefix, old(prefix))
+  loop 3 invariant isAnc(prefix, old(prefix))
+  loop 5 invariant isAnc(prefix, old(prefix))
+
 # ---- schedule arithmetic ----------------------------------------------------
 # Offsets live in [0, interval). timeBetween is the wait from one offset to
 # the next occurrence of another: between 1 and interval, and it lands exactly
@@ -54,8 +70,6 @@ func (s *SweepingProvider) claimRegionReprovide(regions []keyspace.Region) []key
   modifies *
 func (s *SweepingProvider) unscheduleSubsumedPrefixesNoLock(prefix bitstr.Key)
   modifies *
-func (s *SweepingProvider) provideRegions(regions []keyspace.Region, addrInfo peer.AddrInfo, reprovide bool) bool
-  modifies *
 func (s *SweepingProvider) individualProvide(prefix bitstr.Key, keys []mh.Multihash, reprovide bool)
   modifies *
 func (s *SweepingProvider) persistSuccessfulReprovide(prefix bitstr.Key)
@@ -89,5 +103,55 @@ func (s *SweepingProvider) batchReprovide(prefix bitstr.Key)
   ghost at call(AssignKeysToRegions): $regions = $ret0
   ghost at before call(provideRegions): assert($arg0 == $regions && $arg1 == $ai && $arg2)
   ghost at before call(individualProvide): assert(!$explored && $arg0 == old(prefix) && $arg2)
+
+# Same custody for a first-time provide of queued keys: the keys handed in plus
+# whatever the provide queue still holds under the covered prefix are the keys
+# assigned to the explored regions; on failure the keys go back through
+# failedProvide (they are not dropped).
+func (s *SweepingProvider) batchProvide(prefix bitstr.Key, keys []mh.Multihash)
+  props C17
+  ghostvar $cov bitstr.Key = any
+  ghostvar $ai peer.AddrInfo = any
+  ghostvar $regions []keyspace.Region = nil
+  ghostvar $assigned []mh.Multihash = nil
+  modifies *
+  ghost at call(selfAddrInfo): $ai = $ret0
+  ghost at before call(exploreSwarm): assert($arg0 == prefix)
+  ghost at call(exploreSwarm): $cov = $ret1
+  ghost at before call(DequeueMatching): assert($arg0 == $cov)
+  ghost at before call(failedProvide): assert($arg0 == prefix && $arg1 == keys)
+  ghost at before call(AssignKeysToRegions): $assigned = $arg1; assert(len($arg1) >= len(old(keys)) && all(i, 0, len(old(keys)), $arg1[i] == old(keys)[i]))
+  ghost at call(AssignKeysToRegions): $regions = $ret0
+  ghost at before call(provideRegions): assert($arg0 == $regions && $arg1 == $ai && !$arg2)
+  ghost at before call(individualProvide): assert($arg0 == prefix && $arg1 == keys && !$arg2)
+
+func (s *SweepingProvider) sendProviderRecords(keysAllocations map[peer.ID][][]mh.Multihash, addrInfo peer.AddrInfo, nKeys int) (reachablePeers int, err error)
+  modifies *
+func (s *SweepingProvider) releaseRegionReprovide(prefix bitstr.Key)
+  modifies *
+func (s *SweepingProvider) increaseProvideCounter(n int)
+  modifies *
+func (s *SweepingProvider) addLocalRecord(ctx context.Context, h mh.Multihash) error
+  modifies *
+
+# Every region with keys is allocated with the configured replication factor
+# and sent with the addresses handed in; a reprovided region is put back on the
+# schedule whether or not sending failed; a failed region is reported with its
+# prefix (reprovide) or its keys (provide) so that it is retried.
+func (s *SweepingProvider) provideRegions(regions []keyspace.Region, addrInfo peer.AddrInfo, reprovide bool) bool
+  props C17
+  ghostvar $alloc ref(map[peer.ID][][]mh.Multihash) = any
+  ghostvar $resched int = 0
+  ghostvar $sent int = 0
+  modifies *
+  ensures [internal-every-sent-region-rescheduled] imp(reprovide, $resched == $sent)
+  loop over regions invariant imp(reprovide, $resched == $sent)
+  ghost at before call(AllocateToKClosest): assert($arg0 == r.Keys && $arg1 == r.Peers && $arg2 == s.replicationFactor)
+  ghost at call(AllocateToKClosest): $alloc = $ret0
+  ghost at before call(sendProviderRecords): assert($arg0 == $alloc && $arg1 == addrInfo); $sent = $sent + 1
+  ghost at before call(reschedulePrefix): assert($arg0 == r.Prefix && reprovide); $resched = $resched + 1
+  ghost at before call(failedReprovide): assert($arg0 == r.Prefix && reprovide && err != nil)
+  ghost at before call(failedProvide): assert($arg0 == r.Prefix && $arg1 == keys && !reprovide)
 @*/
+
 
